@@ -135,6 +135,10 @@ func (s *LinkedLog) ReadWithSize(offset uint64, size uint64) ([]OffsetAndSizeAnd
 	if size > 256*mib {
 		return nil, indexes.OffsetAndSize{}, fmt.Errorf("compacted indexes length too large: %d", size)
 	}
+	if fileSize, err := s.getSize(); err == nil && offset+size > uint64(fileSize) {
+		// do not allocate for a record that cannot be in the file
+		return nil, indexes.OffsetAndSize{}, fmt.Errorf("record [%d, %d) reaches past the end of the log (%d bytes)", offset, offset+size, fileSize)
+	}
 	// debugln("compactedIndexesLen:", compactedIndexesLen)
 	// `size` is the total length of the record, length prefix included. The width
 	// of the prefix depends on the payload length (not on the total length), so
